@@ -23,7 +23,7 @@ type World map[string]string
 var Baseline = World{
 	"qsig": "ok", "ak": "ok", "mut": "none", "bind": "ok", "qeSigner": "leaf", "authLen": "n32", "extra": "none",
 	"leafPki": "A", "interPki": "A", "rootPki": "A", "pool": "A", "leafRole": "pck", "nBlocks": "n3", "trailer": "none",
-	"pemType": "cert", "interCN": "platform", "leafId": "l1", "serials": "std", "sigShape": "any", "msgWide": "none", "sgxOrder": "canon", "leafExtCritical": "no", "interSlot": "inter", "rotVia": "pool", "sharedSigner": "distinct", "src": "gen",
+	"pemType": "cert", "interCN": "platform", "leafId": "l1", "serials": "std", "sigShape": "any", "msgWide": "none", "sgxOrder": "canon", "sgxValues": "random", "leafExtCritical": "no", "interSlot": "inter", "rotVia": "pool", "sharedSigner": "distinct", "src": "gen",
 	"tcbSigner": "ok", "tcbOver": "member", "tcbAlter": "none", "tcbExtra": "none", "tcbHdr": "ok", "tcbMeta": "ok",
 	"qeSignerDoc": "ok", "qeOver": "member", "qeAlter": "none", "qeExtra": "none", "qeHdr": "ok", "qeMeta": "ok",
 	"tcbContent": "ok", "modBranch": "none", "qeContent": "ok",
@@ -268,6 +268,8 @@ func Build(w World, p Params) *Concrete {
 		dps, dpOutcomes = []string{"https://dp1.example/root.crl", DefaultRootCrlURL}, []string{"garbage", "ok"}
 	case "errorError":
 		dps, dpOutcomes = []string{"https://dp1.example/root.crl", DefaultRootCrlURL}, []string{"error", "error"}
+	case "malformedThenOk": // the first location is not a well-formed URI (a certificate may carry any IA5String): it cannot be fetched, the next one can
+		dps, dpOutcomes = []string{"https://dp%zz.example:port/ro\x7fot.crl", DefaultRootCrlURL}, []string{"error", "ok"}
 	default:
 		panic("bad rootCrlDps")
 	}
@@ -349,6 +351,12 @@ func Build(w World, p Params) *Concrete {
 
 	// ---- platform values, SGX extension, leaf ---------------------------------------
 	sgx := SgxValues{PPID: RandBytes(rng, 16), CPUSvn: RandBytes(rng, 16), PCEID: RandBytes(rng, 2), FMSPC: RandBytes(rng, 6)}
+	if w.Get("sgxValues") == "derLike" { // values whose bytes read as the complete DER of a shorter octet string: values like any other
+		sgx.PPID[0], sgx.PPID[1] = 0x04, 0x0e
+		sgx.PCEID[0], sgx.PCEID[1] = 0x04, 0x00
+		sgx.FMSPC[0], sgx.FMSPC[1] = 0x04, 0x04
+		sgx.CPUSvn[0], sgx.CPUSvn[1] = 0x04, 0x0e
+	}
 	for i := range sgx.Comp {
 		sgx.Comp[i] = int64(20 + rng.Intn(200)) // leaves room below and above
 	}
@@ -377,6 +385,9 @@ func Build(w World, p Params) *Concrete {
 		leaf = H.NewLeafKeyCrit(leafKey, CNPck, leafSerial, ext, lw.nb, lw.na, w.Get("leafExtCritical") == "yes")
 	case "wrongCN": // right issuer, SGX extension present, but the subject of another role
 		leaf = H.NewLeafKeyCrit(leafKey, CNTcbSign, leafSerial, ext, lw.nb, lw.na, w.Get("leafExtCritical") == "yes")
+	case "cnUpper", "cnSpace", "cnKelvin": // issued like a PCK leaf, but its common name only *resembles* the PCK role name
+		cn := map[string]string{"cnUpper": "INTEL SGX PCK CERTIFICATE", "cnSpace": "Intel SGX PCK Certificate ", "cnKelvin": "Intel SGX PC\u212a Certificate"}[w.Get("leafRole")]
+		leaf = H.NewLeafKeyCrit(leafKey, cn, leafSerial, ext, lw.nb, lw.na, w.Get("leafExtCritical") == "yes")
 	case "tcbSignByRoot": // a TCB-Signing-named certificate issued by the (trusted) root, carrying an SGX extension
 		k := leafKey
 		cert, der := Issue(CertSpec{CN: CNTcbSign, Serial: leafSerial, NotBefore: lw.nb, NotAfter: lw.na, CRLDP: []string{PckCrlURL("platform")},
@@ -732,6 +743,9 @@ func Build(w World, p Params) *Concrete {
 	case "modNoLevel":
 		tcb.Identities = []ModIdentity{decoy, {ID: modID, Levels: []ModLevel{{int(svn[0]) + 1, "UpToDate"}}}}
 		goodTcb.Identities = []ModIdentity{decoy, okMod}
+	case "modDupId": // the matching identity twice: the first has no level the module reaches, a later one has; the first one decides (no level: error)
+		tcb.Identities = []ModIdentity{decoy, {ID: modID, Levels: []ModLevel{{int(svn[0]) + 1, "UpToDate"}}}, okMod}
+		goodTcb.Identities = []ModIdentity{decoy, okMod}
 	case "modDecoyIds": // identities whose ids are not "TDX_" + two hex digits come before the right one and are simply not it
 		tcb.Identities = []ModIdentity{{ID: "TDX_", Levels: []ModLevel{{0, "Revoked"}}}, {ID: "TDX", Levels: []ModLevel{{0, "Revoked"}}}, {ID: "", Levels: []ModLevel{{0, "Revoked"}}},
 			{ID: "TDX_zz", Levels: []ModLevel{{0, "Revoked"}}}, {ID: modID + "0", Levels: []ModLevel{{0, "Revoked"}}}, {ID: "tdx_" + modID[4:], Levels: []ModLevel{{0, "Revoked"}}}, decoy, okMod}
@@ -947,6 +961,12 @@ func Build(w World, p Params) *Concrete {
 				SKI: signer.Cert.SubjectKeyId})
 			signKey = k
 			hdrCerts = [][]byte{dd, rd}
+		case "ekuOther": // certified by the trusted root under the right name, but restricted to another purpose (TLS client authentication)
+			k := NamedKey(ks, "eku-signer-"+doc)
+			_, dd := Issue(CertSpec{CN: CNTcbSign, Serial: big.NewInt(serialBase + 6), NotBefore: farNB, NotAfter: farNA, CRLDP: dps, Pub: &k.PublicKey,
+				Parent: H.Root.Cert, SignKey: H.Root.Key, EKU: []x509.ExtKeyUsage{x509.ExtKeyUsageClientAuth}})
+			signKey = k
+			hdrCerts = [][]byte{dd, root.DER}
 		case "wrongRole": // a key the trusted root certified for another role (Platform CA)
 			signKey = H.Inter.Key
 			hdrCerts = [][]byte{H.Inter.DER, root.DER}
@@ -1045,6 +1065,9 @@ func Build(w World, p Params) *Concrete {
 			delete(hdr, hdrName)
 		case "duplicated":
 			hdr[hdrName] = []string{hv, hv}
+		case "caseDuplicate": // the same header once more under another spelling of its name, carrying another chain: header names are looked up as Go canonicalises them
+			hdr[strings.ToLower(hdrName)] = []string{IssuerChainHeader(O.TcbSign.DER, O.Root.DER)}
+			hdr[strings.ToUpper(hdrName)] = []string{"garbage"}
 		case "empty":
 			hdr[hdrName] = []string{""}
 		case "swapped":
@@ -1100,6 +1123,8 @@ func Build(w World, p Params) *Concrete {
 			pckRev = append(pckRev, new(big.Int).SetBytes(append([]byte{0x11}, RandBytes(rng, 19)...)))
 		}
 		pckRev[150+rng.Intn(100)] = leaf.Cert.SerialNumber
+	case "interSerial": // the PCK CRL lists the serial the platform CA certificate carries: a leaf of that number, not the CA
+		pckRev = []*big.Int{embInter.Cert.SerialNumber, big.NewInt(76)}
 	case "nearMiss":
 		pckRev = near(leaf.Cert.SerialNumber)
 	case "many":
@@ -1116,8 +1141,12 @@ func Build(w World, p Params) *Concrete {
 		rootRev = []*big.Int{big.NewInt(99), interSerial}
 	case "tcbSigner":
 		rootRev = []*big.Int{tcbSign.Cert.SerialNumber}
-	case "qeSigner":
+	case "qeSigner", "qeSignerReason8":
 		rootRev = []*big.Int{big.NewInt(98), qeSign.Cert.SerialNumber}
+	case "tcbSignerReason8":
+		rootRev = []*big.Int{tcbSign.Cert.SerialNumber}
+	case "leafSerial": // the Root CA CRL lists the serial the PCK *leaf* happens to carry: another issuer's certificate, nothing to do with this chain
+		rootRev = []*big.Int{big.NewInt(97), leaf.Cert.SerialNumber}
 	case "nearMiss":
 		rootRev = append(append(near(interSerial), near(tcbSign.Cert.SerialNumber)...), near(qeSign.Cert.SerialNumber)...)
 		// the near misses of one serial may hit another signer's serial (they are consecutive): drop those
@@ -1158,7 +1187,7 @@ func Build(w World, p Params) *Concrete {
 	rcw := win["rootCrlNext"]
 	switch w.Get("rootCrlSigner") {
 	case "root":
-		rootCrl = CRL(embRoot.Cert, embRoot.Key, rootRev, rcw.nb, rcw.na)
+		rootCrl = CRLReason(embRoot.Cert, embRoot.Key, rootRev, map[bool]int{true: 8, false: 0}[strings.HasSuffix(w.Get("rootCrlRev"), "Reason8")], rcw.nb, rcw.na)
 	case "inter":
 		rootCrl = CRL(embInter.Cert, embInter.Key, rootRev, rcw.nb, rcw.na)
 	case "interNamedRoot":
